@@ -1,19 +1,58 @@
 package main
 
 import (
+	"bufio"
 	"errors"
 	"fmt"
+	"io"
 )
 
 // injectedError is the class of errors the harness injects; every injection
 // uses a fresh value so that identity (errors.Is) can be checked.
-type injectedError struct{ id int }
+//
+// An injected error may wrap one of the sentinel values the library compares
+// its source's errors with (a transport error that wraps io.EOF is not io.EOF:
+// the stream did not end, the transport failed), or claim to be one through an
+// Is method; the library must hand back the very value it was given.
+type injectedError struct {
+	id   int
+	wrap error
+	is   error
+}
 
-func (e *injectedError) Error() string { return fmt.Sprintf("verif: injected failure #%d", e.id) }
+func (e *injectedError) Error() string {
+	if e.wrap != nil {
+		return fmt.Sprintf("verif: injected failure #%d: %v", e.id, e.wrap)
+	}
+	return fmt.Sprintf("verif: injected failure #%d", e.id)
+}
+func (e *injectedError) Unwrap() error { return e.wrap }
+func (e *injectedError) Is(target error) bool {
+	return e.is != nil && target == e.is
+}
 
 var injectCounter int
 
 func newInjected() error { injectCounter++; return &injectedError{id: injectCounter} }
+
+// errKinds: the kinds of injected source errors (RSource.ErrKind).
+var errKinds = []string{"", "wrapEOF", "wrapUxEOF", "wrapBufFull", "isEOF"}
+
+func newInjectedKind(kind string) error {
+	injectCounter++
+	e := &injectedError{id: injectCounter}
+	switch kind {
+	case "wrapEOF":
+		e.wrap = io.EOF
+	case "wrapUxEOF":
+		e.wrap = io.ErrUnexpectedEOF
+	case "wrapBufFull":
+		e.wrap = bufio.ErrBufferFull
+	case "isEOF":
+		e.is = io.EOF
+	}
+	return e
+}
 
 // Sink is the destination of a Writer under test: it records what it is
 // given and fails from its FailAt-th call on.
@@ -25,6 +64,7 @@ type Sink struct {
 	Failed  bool
 	After   int // calls made after the first failure
 	Err     error
+	ErrKind string // errKinds
 }
 
 func (s *Sink) Write(p []byte) (int, error) {
@@ -35,7 +75,7 @@ func (s *Sink) Write(p []byte) (int, error) {
 	}
 	if s.FailAt > 0 && s.Calls >= s.FailAt {
 		s.Failed = true
-		s.Err = newInjected()
+		s.Err = newInjectedKind(s.ErrKind)
 		if s.Partial && len(p) > 1 {
 			s.Buf = append(s.Buf, p[:len(p)/2]...)
 			return len(p) / 2, s.Err
@@ -51,8 +91,11 @@ func errClassW(err error, s *Sink) string {
 	if err == nil {
 		return "nil"
 	}
-	if s != nil && s.Err != nil && errors.Is(err, s.Err) {
+	if s != nil && s.Err != nil && err == s.Err {
 		return "dst"
+	}
+	if s != nil && s.Err != nil && errors.Is(err, s.Err) {
+		return "other" // the destination's error wrapped in something else: not "that error"
 	}
 	var ie *injectedError
 	if errors.As(err, &ie) {
